@@ -3,6 +3,7 @@
 (* explored transition as a schedule step.                                  *)
 EXTENDS MTGraph, Json
 NoFail == {}
+TotalsInf == {Inf}
 FailSmall == {<<b, k>> : b \in 1 .. N, k \in 1 .. 2}
 
 Cfg == [total |-> total, fail |-> fail, order |-> order, cancel |-> (cpc # "none")]
